@@ -2,6 +2,7 @@ package main
 
 import (
 	"fmt"
+	"go/token"
 	"go/types"
 	"sort"
 	"strings"
@@ -121,6 +122,8 @@ func init() {
 						&MustPass{Match: eqMatcher(is("<"+typeShort(tn)+">.C"), is("arg#2"))})
 				}
 			}},
+		Rule{ID: "C02.h", Explain: "no verdict-relevant state is carried from one verification to the next inside a proof object: every field of ProofD, ProofU, revocation.Proof or rangeproof.Proof that some function in the call tree of ProofList.Verify / ProofD.Verify / ProofU.Verify writes is, wherever that call tree reads it, preceded on every path from the entry point by a write of the same invocation (a memo read before it is recomputed would make the verdict depend on the keys, context or nonce of an earlier call).",
+			Run: func(P *Program, R *Report) { noCrossCallStateRule(P, R) }},
 		Rule{ID: "C02.e", Explain: "ProofU.ChallengeContribution = [U, Ucommit] with Ucommit data-dependent on U, C, VPrimeResponse, SResponse, every MUserResponses value, pk.S, pk.R[0], pk.R[i], pk.N (ProofD: C01.e).",
 			Run: func(P *Program, R *Report) { proofUContributionDeps(P, R, "C02.e") }},
 		Rule{ID: "C02.f", Explain: "every challenge of the showing/issuance protocol goes through createChallenge with the caller's own context/nonce/flag in their roles (table of 6 call sites).",
@@ -489,4 +492,130 @@ func sortedAfterLoop(P *Program, fn *ssa.Function, l *Loop, app *ssa.Call) bool 
 		}
 	})
 	return sorted
+}
+
+// noCrossCallStateRule (C02.h): memo fields of proof objects. A field of a proof type that one function of the
+// verification call tree both reads and (itself or through its callees) writes is a memo; every such read must
+// follow a write of the same invocation.
+func noCrossCallStateRule(P *Program, R *Report) {
+	rule := "C02.h"
+	proofTypes := map[string]bool{"gabi.ProofD": true, "gabi.ProofU": true, "revocation.Proof": true, "rangeproof.Proof": true}
+	var entries []*ssa.Function
+	for _, k := range []string{kListVerify, kProofDVerify, kProofUVerify} {
+		if f := mustFunc(P, R, rule, k); f != nil {
+			entries = append(entries, f)
+		}
+	}
+	if len(entries) == 0 {
+		return
+	}
+	descReroot = true
+	defer func() { descReroot = false }()
+	reach := P.reachableFuncs(entries...)
+	fieldOf := func(addr ssa.Value) (string, bool) {
+		fa, ok := addr.(*ssa.FieldAddr)
+		if !ok || !proofTypes[typeKey(fa.X.Type())] {
+			return "", false
+		}
+		if _, fresh := rootOfAddr(fa.X).(*ssa.Alloc); fresh {
+			return "", false
+		}
+		return desc(fa), true
+	}
+	// fields stored directly by each function
+	direct := map[*ssa.Function]map[string]bool{}
+	nWritten := map[string]bool{}
+	for _, fn := range reach {
+		direct[fn] = map[string]bool{}
+		allInstrs(fn, func(i ssa.Instruction) {
+			if st, ok := i.(*ssa.Store); ok {
+				if d, ok := fieldOf(st.Addr); ok {
+					direct[fn][d] = true
+					nWritten[d] = true
+				}
+			}
+		})
+	}
+	R.decide(rule, "written-fields:count", "proof fields written during verification were found (>= 3: range-proof m-response, expected Nu/challenge of the non-revocation proof, ...)", len(nWritten) >= 3, strings.Join(sortedKeys(nWritten), ", "), "")
+	// ... and through callees (bounded depth)
+	var storedBy func(fn *ssa.Function, depth int, seen map[*ssa.Function]bool) map[string]bool
+	storedBy = func(fn *ssa.Function, depth int, seen map[*ssa.Function]bool) map[string]bool {
+		out := map[string]bool{}
+		if seen[fn] || depth > 4 {
+			return out
+		}
+		seen[fn] = true
+		for d := range direct[fn] {
+			out[d] = true
+		}
+		for _, c := range callsIn(fn) {
+			for _, g := range P.callees(c) {
+				if direct[g] != nil {
+					for d := range storedBy(g, depth+1, seen) {
+						out[d] = true
+					}
+				}
+			}
+		}
+		return out
+	}
+	nMemo := 0
+	for _, fn := range reach {
+		stored := storedBy(fn, 0, map[*ssa.Function]bool{})
+		if len(stored) == 0 {
+			continue
+		}
+		type site struct {
+			ld *ssa.UnOp
+			d  string
+		}
+		var sites []site
+		allInstrs(fn, func(i ssa.Instruction) {
+			if ld, ok := i.(*ssa.UnOp); ok && ld.Op == token.MUL {
+				if d, ok := fieldOf(ld.X); ok && stored[d] {
+					sites = append(sites, site{ld, d})
+				}
+			}
+		})
+		byField := map[string][]site{}
+		for _, s := range sites {
+			byField[s.d] = append(byField[s.d], s)
+		}
+		for _, d := range sortedKeys(boolSetAgg(byField)) {
+			nMemo++
+			R.seen(FuncKey(fn))
+			ok := true
+			var why []string
+			for _, s := range byField[d] {
+				q := &MustPass{P: P, Instr: func(_ *ssa.Function, i ssa.Instruction) bool {
+					st, isSt := i.(*ssa.Store)
+					return isSt && desc(st.Addr) == d
+				}}
+				q.init()
+				r := q.search(fn, AcceptAny(), 0, searchOpts{startAt: []*mpState{{b: s.ld.Block(), note: "read at " + P.Pos(s.ld.Pos())}}, startInstr: s.ld})
+				if !r.Holds {
+					ok = false
+					why = append(why, P.Pos(s.ld.Pos())+": "+r.Path)
+				}
+			}
+			R.decide(rule, FuncKey(fn)+":memo("+d+")", "a proof field that this function (or its callees) writes is read only after it was written in the same invocation", ok, strings.Join(why, "\n"), P.Pos(byField[d][0].ld.Pos()))
+		}
+	}
+	R.decide(rule, "memo-candidates:count", "functions that read and write the same proof field were examined (>= 1)", nMemo >= 1, fmt.Sprintf("%d", nMemo), "")
+}
+
+func boolSet(m map[string]string) map[string]bool {
+	out := map[string]bool{}
+	for k := range m {
+		out[k] = true
+	}
+	return out
+}
+
+func boolSetAgg[T any](m map[string]T) map[string]bool {
+	out := map[string]bool{}
+	for k := range m {
+		out[k] = true
+	}
+	return out
 }
